@@ -68,6 +68,8 @@ type World struct {
 	Hang    bool
 	Panic   string
 	Timeout time.Duration
+	IO      IOState
+	HeapOK  map[string]bool // per collection: no key has been overwritten with a lower priority so far
 	RC      *RefCounter // non-nil when the ref-count callbacks are installed (C15)
 	// counts of item references (C15) are kept by the callbacks in CB when installed
 }
@@ -222,7 +224,11 @@ func (w *World) do(op Op) string {
 		return w.reopen()
 	case "snap":
 		sn := s.Snapshot()
-		w.H = append(w.H, &Handle{Store: sn, Ref: h.Ref.clone(), RO: true})
+		var ref *RefStore
+		if h.Ref != nil {
+			ref = h.Ref.clone()
+		}
+		w.H = append(w.H, &Handle{Store: sn, Ref: ref, RO: true})
 		return "ok"
 	case "close":
 		s.Close()
@@ -361,6 +367,9 @@ func (w *World) release(s *gkvlite.Store, c *gkvlite.Collection, i *gkvlite.Item
 func (w *World) Expect(op Op) string {
 	h := w.H[op.H]
 	r := h.Ref
+	if r == nil {
+		return "?"
+	}
 	switch op.K {
 	case "coll":
 		if h.RO {
@@ -394,7 +403,8 @@ func (w *World) Expect(op Op) string {
 			return "err"
 		}
 		if h.RO {
-			return "ok" // contents after a snapshot revert are checked separately
+			h.Ref = nil // what a reverted snapshot shows is not specified here; only that nothing else changes
+			return "ok"
 		}
 		if len(w.Flushed) > 0 {
 			w.Flushed = w.Flushed[:len(w.Flushed)-1]
@@ -427,6 +437,15 @@ func (w *World) Expect(op Op) string {
 	case "set":
 		if h.RO || !itemValid(op.Key, op.Val, op.Prio) {
 			return "err"
+		}
+		if w.HeapOK == nil {
+			w.HeapOK = map[string]bool{}
+		}
+		if _, seen := w.HeapOK[op.Name]; !seen {
+			w.HeapOK[op.Name] = true
+		}
+		if j, ok := c.find(op.Key); ok && c.Items[j].Prio > op.Prio {
+			w.HeapOK[op.Name] = false
 		}
 		c.set(RefItem{Key: op.Key, Val: op.Val, Prio: op.Prio})
 		return "ok"
